@@ -8,9 +8,13 @@
    ACase: one class of string / []byte leaves of values decoded through the public
           API: is the leaf inside the input buffer (pointer-range test)?
    SCase: the same for leaves of a value decoded by the side Decoder of a SelfExt extension.
-   RCase: the same for Raw leaves. *)
+   RCase: the same for Raw leaves.
+   ECase: Encode of a value whose encode callback (Binary/Text/JSON marshaler, Selfer,
+          MissingFielder; pointer or value receiver) writes to its receiver, sitting at the
+          end of the position chain under the argument of Encode, with NoAddressableReadonly
+          and Canonical as given: did the caller's value change (deep snapshot before/after)? *)
 From Coq Require Import List NArith ZArith Bool.
-From Verif Require Import Gen.Consts C13.Model.
+From Verif Require Import Gen.Consts C13.Model C13.EncModel.
 Import ListNotations.
 Open Scope bool_scope.
 
@@ -29,10 +33,12 @@ Inductive case :=
         (o_att : Z) (o_rc : N) (o_len : Z) (o_cap0 : bool)
 | ACase (id : N) (zc it : bool) (t : transport) (fm : format) (f : flow) (k : popk) (n : Z) (o_input : bool)
 | SCase (id : N) (zc it : bool) (t : transport) (fm : format) (f : flow) (k : popk) (n : Z) (o_input : bool)
-| RCase (id : N) (zc : bool) (t : transport) (n : Z) (o_input : bool).
+| RCase (id : N) (zc : bool) (t : transport) (n : Z) (o_input : bool)
+| ECase (id : N) (nar canon ptr_recv : bool) (chain : list hstep) (o_written : bool).
 
 Definition cid (c : case) : N :=
-  match c with UCase i _ _ _ _ _ _ _ _ _ _ => i | ACase i _ _ _ _ _ _ _ _ => i | SCase i _ _ _ _ _ _ _ _ => i | RCase i _ _ _ _ => i end.
+  match c with UCase i _ _ _ _ _ _ _ _ _ _ => i | ACase i _ _ _ _ _ _ _ _ => i | SCase i _ _ _ _ _ _ _ _ => i | RCase i _ _ _ _ => i
+                 | ECase i _ _ _ _ _ => i end.
 
 (* 0 no memory (cap 0), 1 input, 2 reader buffer, 3 decoder scratch, 4 symbol table, 5 anything else *)
 Definition rclass (b : bview) : N :=
@@ -71,6 +77,8 @@ Definition check_case (c : case) : bool :=
       end
   | RCase _ zc t n o_input =>
       Bool.eqb (is_input (keep (mkopts zc false) t FRaw (raw_view t (classify n false)))) o_input
+  | ECase _ nar canon ptr_recv chain o_written =>
+      Bool.eqb (caller_written (mkeopts nar canon) ptr_recv chain) o_written
   end.
 
 Definition mismatches (cs : list case) : list N :=
